@@ -100,12 +100,12 @@ static void diverge(const Pub *p, const Secret *a, const Secret *b, const char *
 static void run_combo(const Pub *p)
 {
     Secret base, alt; uint64_t h0, l0;
-    Field f[5]; int nf = 0, fi; size_t pos; int vi, nvals = tier_thorough() ? 256 : 6;
-    size_t dlen = p->prog == P_CTR ? (size_t)p->size + 47 : (p->prog == P_PAR ? (size_t)p->size : 32);
+    Field f[6]; int nf = 0, fi; size_t pos; int vi, nvals = tier_thorough() ? 256 : 6;
+    size_t dlen = p->prog == P_CTR || p->prog == P_SEEK ? (size_t)p->size + 47 : (p->prog == P_PAR ? (size_t)p->size : 32);
     memset(&O, 0, sizeof(O));
     arena_reset();
     g_pin = p->be;
-    if (p->prog == P_CTR && !ctr_init(p->c, p->be, &O.co)) engine_error("ctr init");
+    if ((p->prog == P_CTR || p->prog == P_SEEK) && !ctr_init(p->c, p->be, &O.co)) engine_error("ctr init");
     if (p->prog == P_PAR && !par_init(p->c, p->be, &O.po)) engine_error("par init");
     base_secret(&base);
     run_program(p, &base);          /* warm-up (lazy binding, first-iteration object state) */
@@ -116,7 +116,8 @@ static void run_combo(const Pub *p)
     ++combos;
     f[nf].what = "key"; f[nf].off = offsetof(Secret, key); f[nf++].len = (size_t)(p->prog == P_MANTIS || p->c == CK_MANTIS ? 17 : p->klen + 1 > 48 ? 48 : p->klen + 1);
     if (p->prog != P_BLOCK && p->prog != P_PAR) { f[nf].what = "tweak"; f[nf].off = offsetof(Secret, tweak); f[nf++].len = 16; }
-    if (p->prog == P_CTR) { f[nf].what = "counter"; f[nf].off = offsetof(Secret, counter); f[nf++].len = (size_t)p->clen; }
+    if (p->prog == P_CTR || p->prog == P_SEEK) { f[nf].what = "counter"; f[nf].off = offsetof(Secret, counter); f[nf++].len = (size_t)p->clen; }
+    if (p->prog == P_SEEK) { f[nf].what = "second counter"; f[nf].off = offsetof(Secret, counter2); f[nf++].len = (size_t)p->clen; }
     f[nf].what = "data"; f[nf].off = offsetof(Secret, data); f[nf++].len = dlen > 64 && !tier_thorough() ? 64 : dlen;
     if (p->prog == P_MANTIS || (p->prog == P_PAR && p->c == CK_MANTIS)) { f[nf].what = "per-call tweak"; f[nf].off = offsetof(Secret, tw); f[nf++].len = p->prog == P_PAR ? (dlen > 64 ? 64 : dlen) : 8; }
     if (p->prog == P_CONTROL) { nf = 0; f[nf].what = "data"; f[nf].off = offsetof(Secret, data); f[nf++].len = 1; }
@@ -158,7 +159,14 @@ static void run_combo(const Pub *p)
             }
         }
     }
-    if (p->prog == P_CTR) ctr_cleanup(p->c, &O.co);
+    if (p->prog == P_SEEK) {      /* second counter in a fixed relation to the first */
+        int k;
+        for (k = 0; ct_related_counter(p, &base, &alt, k); ++k) {
+            run_program(p, &alt); ++traces; ++g_cnt.evaluations;
+            if (tr_hash != h0 || tr_len != l0) { diverge(p, &base, &alt, "second counter = first counter + offset number", (size_t)k, 0); return; }
+        }
+    }
+    if (p->prog == P_CTR || p->prog == P_SEEK) ctr_cleanup(p->c, &O.co);
     if (p->prog == P_PAR) par_cleanup(p->c, &O.po);
 }
 
